@@ -250,6 +250,9 @@ pub struct Summary {
     pub runs: u64,
     pub panics: u64,
     pub counts: BTreeMap<String, u64>,
+    /// per job: heap blocks / bytes that were allocated during the job and are still alive after everything of the
+    /// job was dropped and its domain cleaned up (counting global allocator of this driver)
+    pub heap: Vec<(i64, i64)>,
 }
 
 impl Summary {
@@ -264,6 +267,7 @@ impl Summary {
         *self.counts.entry(key).or_insert(0) += 1;
     }
     pub fn to_json(&self, lines: u64) -> Value {
-        json!({"runs": self.runs, "panics": self.panics, "events": lines, "counts": self.counts})
+        json!({"runs": self.runs, "panics": self.panics, "events": lines, "counts": self.counts,
+               "heap": self.heap.iter().map(|(b, y)| json!([b, y])).collect::<Vec<_>>()})
     }
 }
